@@ -296,14 +296,15 @@ Propagate(a, b) ==
 (*                    0^positive = 0, 0^negative = #DIV/0!;                *)
 (*                    positive x: irrational in general, U("num")          *)
 (* A result beyond the range of a double (|r| >= 1E309 for sure when the   *)
-(* integer part of |x| has L digits and (L-1)*y >= 309) is #NUM!; when the *)
-(* bound L*y <= 308 proves it finite it is a number; in between it is open.*)
-PowMag(x, k) ==                        \* |x| > 1 here, k > 0
+(* integer part of |x| has L digits and (L-1)*floor(y) >= 309) is #NUM!;   *)
+(* when the bound L*ceil(y) <= 308 proves it finite it is a number; in     *)
+(* between it is left open.                                                *)
+PowMag(x, lo, hi) ==                   \* |x| > 1, the exponent is in [lo, hi], lo >= 0
   LET q == Abs(x[2]) \div x[3]
       L == NumDigits(q)
-  IN  IF ~MulFits(L, k) THEN NUM
-      ELSE IF (L - 1) * k >= 309 THEN NUM
-      ELSE IF L * k <= 308 THEN U("num")
+  IN  IF ~MulFits(L, hi) THEN (IF lo = 0 THEN U("any") ELSE NUM)
+      ELSE IF (L - 1) * lo >= 309 THEN NUM
+      ELSE IF L * hi <= 308 THEN U("num")
       ELSE U("any")
 
 NPow(x, y) ==
@@ -314,12 +315,15 @@ NPow(x, y) ==
        ELSE LET base == IF k > 0 THEN x ELSE NRecip(x)
                 r    == NPowNat(base, Abs(k))
             IN  IF ~IsU(r) THEN r
-                ELSE IF Abs(base[2]) > base[3] THEN PowMag(base, Abs(k))
+                ELSE IF Abs(base[2]) > base[3] THEN PowMag(base, Abs(k), Abs(k))
                 ELSE U("num")                    \* |base| < 1: tends to 0
   ELSE IF x[2] < 0 THEN NUM
   ELSE IF IsZero(x) THEN (IF y[2] > 0 THEN Zero ELSE DIV0)
   ELSE IF x = One THEN One
-  ELSE U("num")
+  ELSE LET base == IF y[2] > 0 THEN x ELSE NRecip(x)     \* result = base ^ |y|
+           fl   == Abs(y[2]) \div y[3]                    \* floor |y|
+       IN  IF base[2] > base[3] THEN PowMag(base, fl, fl + 1)
+           ELSE U("num")                         \* in (0, 1]
 
 \* + - * / ^ : coerce both sides, the left coercion failure first
 Arith(op, a, b) ==
